@@ -109,6 +109,8 @@ def _fmt(shapes):
             return 'bytes[n]'
         if s[0] == 'rep':
             return '{%s}*' % ' '.join(one(x) for x in s[2])
+        if s[0] == 'opt':
+            return '(only when %s: %s | else: %s)' % (s[1], _fmt(s[2]) or 'nothing', _fmt(s[3]) or 'nothing')
         return str(s)
     return ' '.join(one(s) for s in shapes)
 
@@ -414,6 +416,9 @@ def siblings(ctx):
     bad = [p for p in pieces if not leaf_ok(p)]
     ctx.require(not bad, q, 'rawtx contains %s which is not a piece that was read' % show(bad[0])[:100] if bad else '', fn)
     rshape = _piece_shapes(pieces, ctx)
+    # the marker/flag pair is present exactly when the probe byte was 00 (the reader consumed 2 bytes then, else it seeks back)
+    if len(rshape) > 1 and rshape[1][0] == 'opt' and "== 00'h" in rshape[1][1] and rshape[1][2] == [('f', 2)] and rshape[1][3] == []:
+        rshape[1] = ('f', 2)
     ctx.saw('rawtx pieces : %s' % _fmt(rshape))
     want = [rs_d[0], ('f', 2)] + [s for s in rs_d[4:]]
     if _strip_keys(_flatten_unrolled(rshape)) != _strip_keys(_flatten_unrolled(want)):
@@ -445,7 +450,12 @@ def _piece_shapes(pieces, ctx):
             out.append(('rep', show(p[1])[:40], _piece_shapes(flatten_cat(p[3]), ctx)))
         elif isinstance(p, tuple) and p[0] == 'cond':
             a, b = _piece_shapes(flatten_cat(p[2]), ctx), _piece_shapes(flatten_cat(p[3]), ctx)
-            out += a if a else b
+            if a == b:
+                out += a
+            elif (not a or not b) and all(x[0] == 'rep' for x in (a or b)):
+                out += (a or b)          # a repeated group may be empty on one branch
+            else:
+                out.append(('opt', show(p[1])[:60], a, b))   # a piece present on one branch only
         else:
             ctx.undecided('dict reader: piece %s not understood' % show(p)[:80])
     return out
